@@ -138,7 +138,54 @@ def check_df(finished, shuffle):
     return None
 
 
+def text_out(a):
+    return f"t{a}"
+
+
+def check_farmer_text(kind):
+    """partial reap of a crop made from a Runner / Harvester whose single output is text: finished values exact, the others null"""
+    with tmpdir() as d, quiet():
+        r = xyz.Runner(text_out, var_names="s")
+        farmer = r if kind == "Runner" else xyz.Harvester(r, data_name=os.path.join(d, "h.h5"))
+        crop = farmer.Crop(name="t", parent_dir=d, batchsize=1)
+        crop.sow_combos({"a": [1, 2, 3]})
+        crop.grow((2,))
+        try:
+            crop.reap()
+            return ["incomplete crop was reaped without allow_incomplete"]
+        except xyz.utils.XYZError:
+            pass
+        except Exception as e:
+            return [f"refusal raised {type(e).__name__} instead of XYZError"]
+        if not os.path.isdir(crop.location) or len(os.listdir(os.path.join(crop.location, "batches"))) != 3:
+            return ["the refused reap deleted (part of) the crop"]
+        try:
+            ds = crop.reap(allow_incomplete=True)
+        except BaseException as e:
+            return [f"partial reap raised {type(e).__name__}: {e}"]
+        if not os.path.isdir(crop.location):
+            return ["partial reap deleted the crop by default"]
+        for a in (1, 2, 3):
+            v = ds["s"].sel(a=a).item()
+            if a == 2:
+                if v != "t2":
+                    return [f"a=2 finished but holds {v!r}"]
+            elif not (v is None or (isinstance(v, float) and math.isnan(v))):
+                return [f"a={a} not grown but holds {v!r} (null expected)"]
+        if not bool(ds["s"].isnull().sel(a=1)):
+            return ["the placeholder of a missing text result is not null in the Dataset"]
+    return None
+
+
 tried = 0
+for kind in ("Runner", "Harvester"):
+    tried += 1
+    try:
+        pr = check_farmer_text(kind)
+    except Exception as e:
+        pr = [f"{type(e).__name__}: {e}"]
+    if pr:
+        finish(True, input=dict(farmer=kind, outputs="one text output", combos={"a": [1, 2, 3]}, batchsize=1, finished=[2]), observed=pr, tried=tried)
 for finished in ((1,), (2, 4), (1, 2, 3)):
     for shuffle in (False, True):
         tried += 1
